@@ -329,6 +329,73 @@ class ExportQualifiers(Case):
         return [dict(x) for x in r]
 
 
+class LocusTagGrouping(Case):
+    """io/genbank/parser.py (LocusTagGenBankParser._extract_seqfeatures_from_seqrecords + _group_features_by_locus_tag):
+    'GenBank features grouped by locus tag produce the same genes whatever the order of records in the file'.
+    The module cannot be imported here (io.vcf.parser / io.models drift): the verifier reads its AST as usual; for
+    the CPython cross-check / replay the file is loaded mechanically with its two failing imports bound to inert
+    placeholders (pyvc.sources.tolerant_module).  Biopython SeqFeature / SeqRecord objects are plain records carrying
+    exactly the attributes the two methods read (type, qualifiers, location, strand).
+    Complete domain: ALL orderings of the features of a locus-tag-complete record with three genes, two of whose tags
+    differ only in case (gene + CDS each; one also an mRNA): one group per exact tag, holding that tag's gene feature,
+    transcripts and CDS features (members in file order), groups ordered by tag."""
+    props = ("C18",)
+    name = "LocusTagGenBankParser: grouping by locus tag[all orderings of the features of three genes, two tags differing in case]"
+    func = "io.genbank.parser.BaseGenBankParser._group_features_by_locus_tag"
+    module = "gene.feature"
+    call = ("(lambda p: (p._extract_seqfeatures_from_seqrecords(), p._group_gene_features_by_locus_tag(), "
+            "[(g.gene_feature.id if g.gene_feature is not None else None, [t.id for t in g.transcript_features], "
+            "[c.id for c in g.cds_features]) for g in p.grouped_gene_features[0]])[2])(parser)")
+    FEATURES = [("gene", "b0001"), ("CDS", "b0001"), ("gene", "B0001"), ("CDS", "B0001"), ("mRNA", "B0001"),
+                ("gene", "c0002"), ("CDS", "c0002")]
+    ensures = {
+        "one-group-per-exact-tag-with-its-own-features": lambda i, r: _groups(r) == _expected_groups(i.order),
+        "same-genes-whatever-the-order": lambda i, r: sorted(map(repr, _groups(r))) == sorted(
+            map(repr, _expected_groups(list(range(7))))),
+    }
+
+    def inputs(self, S):
+        order = list(S.const("order"))
+        feats = [S.facade(type=self.FEATURES[k][0], qualifiers={"locus_tag": [self.FEATURES[k][1]]}, location="1..9",
+                          strand=1, id=k) for k in order]
+        rec = S.facade(features=feats, id="rec")
+        if S.mode == "native":
+            parser = S.tolerant_module("io.genbank.parser").LocusTagGenBankParser([rec], {}, None, None)
+        else:
+            parser = S.new("io.genbank.parser.LocusTagGenBankParser", [rec], {}, None, None)
+        return NS(parser=parser, order=order)
+
+    def ground(self):
+        import random
+        perms = list(itertools.permutations(range(7)))
+        rng = random.Random(18)
+        # every ordering of the 4 features of the two case-twin genes (others fixed), plus a fixed sample of full orderings
+        for p4 in itertools.permutations(range(4)):
+            yield {"order": list(p4) + [4, 5, 6]}
+            yield {"order": [5] + list(p4) + [6, 4]}
+        for p in rng.sample(perms, 150):
+            yield {"order": list(p)}
+
+    def observe(self, r):
+        return [[a, list(b), list(c)] for a, b, c in r]
+
+
+def _groups(r):
+    return [(a, tuple(b), tuple(c)) for a, b, c in r]
+
+
+def _expected_groups(order):
+    """plain grouping on the EXACT tag: gene feature, transcript features, CDS features (file order), by tag order."""
+    F = LocusTagGrouping.FEATURES
+    out = []
+    for tag in sorted({t for _, t in F}):
+        ids = [k for k in order if F[k][1] == tag]
+        gene = [k for k in ids if F[k][0] == "gene"]
+        out.append((gene[0] if gene else None, tuple(k for k in ids if F[k][0] == "mRNA"),
+                    tuple(k for k in ids if F[k][0] == "CDS")))
+    return out
+
+
 class FilterAndSort(Case):
     """io/gff3/parser.py:filter_and_sort_qualifiers (module not importable here: AST in the verifier, mechanically
     extracted FunctionDef under CPython): the qualifiers that ARE BioCantor identifier terms or GFF3 reserved terms are
@@ -390,7 +457,7 @@ def _kept(q):
     return {k: sorted(v) for k, v in q if not _is_reserved(k)}
 
 
-CASES = [FilterAndSort(), MergeQualifiersMethod(), *[ExportQualifiers(k) for k in ExportQualifiers.KINDS], ExtractNameId("extract_feature_name_id[all orderings of all subsets <= 3 keys, 2 spellings + look-alikes]",
+CASES = [LocusTagGrouping(), FilterAndSort(), MergeQualifiersMethod(), *[ExportQualifiers(k) for k in ExportQualifiers.KINDS], ExtractNameId("extract_feature_name_id[all orderings of all subsets <= 3 keys, 2 spellings + look-alikes]",
                        _all_orderings_small),
          ExtractNameId("extract_feature_name_id[all 7! orderings of the name keys; 7! of mixed name/id/look-alike]",
                        _all_orderings_name_keys),
